@@ -1,7 +1,688 @@
-//! C10 engine (not yet built).
-use crate::common::{CaseWriter, Opts};
+//! C10 — stdlib array / set / higher-order functions against their reference definitions.
+//! Every case is one call `std.<fn>(args…)` evaluated from source text by the real evaluator with
+//! the real stdlib; values are JSON (JSON text is jsonnet), function-valued arguments come from a
+//! named pool whose jsonnet text is below and whose Lean twin is `fn1`/`fn2` in Model/StdArr.lean.
+use std::collections::BTreeMap;
+
+use jrsonnet_evaluator::{State, Val};
+use serde_json::{json, Value};
+
+use crate::common::{guarded, new_state, CaseWriter, Opts, Rng};
+
+fn fn_text(name: &str) -> &'static str {
+	match name {
+		"id" => "function(x) x",
+		"idw" => "function(x) [x][0]",
+		"neg" => "function(x) 0 - x",
+		"const0" => "function(x) 0",
+		"mod2" => "function(x) if std.isNumber(x) then x % 2 else error 'e'",
+		"len" => "function(x) std.length(x)",
+		"fieldA" => "function(x) x.a",
+		"failOnStr" => "function(x) if std.isString(x) then error 's' else x",
+		"type" => "function(x) std.type(x)",
+		"wrap" => "function(x) [x]",
+		"isNum" => "function(x) std.isNumber(x)",
+		"pos" => "function(x) x > 0",
+		"eq1" => "function(x) x == 1",
+		"true" => "function(x) true",
+		"inc" => "function(x) x + 1",
+		"dup" => "function(x) [x, x]",
+		"numOrNull" => "function(x) if std.isNumber(x) then [x] else null",
+		"cc" => "function(x) x + x",
+		"skipA" => "function(x) if x == 'a' then null else x",
+		"twice" => "function(x) x * 2",
+		"lit" => "function(x) 'k'",
+		// binary
+		"pair" => "function(a, b) [a, b]",
+		"snoc" => "function(a, b) if std.isArray(a) then a + [b] else error 'e'",
+		"cons" => "function(a, b) if std.isArray(b) then [a] + b else error 'e'",
+		"add" => "function(a, b) if ((std.isNumber(a) || std.isString(a)) && (std.isNumber(b) || std.isString(b))) || (std.isArray(a) && std.isArray(b)) then a + b else error 'e'",
+		"fst" => "function(a, b) a",
+		_ => panic!("unknown pool function {name}"),
+	}
+}
+
+/// implementation value -> canonical JSON (`Err(())` = evaluating an element failed)
+fn val_json(v: &Val) -> Result<Value, String> {
+	Ok(match v {
+		Val::Null => Value::Null,
+		Val::Bool(b) => json!(b),
+		Val::Num(n) => {
+			let f = n.get();
+			if f.fract() == 0.0 && f.abs() < 9.0e15 && !(f == 0.0 && f.is_sign_negative()) {
+				json!(f as i64)
+			} else {
+				json!({"$f": format!("{:016x}", f.to_bits())})
+			}
+		}
+		Val::Str(s) => json!(s.to_string()),
+		Val::Arr(a) => {
+			let mut out = Vec::with_capacity(a.len());
+			for e in a.iter() {
+				let e = e.map_err(|e| format!("{}", e.error()))?;
+				out.push(val_json(&e)?);
+			}
+			Value::Array(out)
+		}
+		Val::Obj(o) => {
+			let mut m = serde_json::Map::new();
+			for k in o.fields(
+				#[cfg(feature = "exp-preserve-order")]
+				false,
+			) {
+				let fv = o
+					.get(k.clone())
+					.map_err(|e| format!("{}", e.error()))?
+					.ok_or_else(|| "missing field".to_string())?;
+				m.insert(k.to_string(), val_json(&fv)?);
+			}
+			Value::Object(m)
+		}
+		Val::Func(_) => json!({"$func": 1}),
+		#[allow(unreachable_patterns)]
+		_ => json!({"$other": 1}),
+	})
+}
+
+fn j(v: &Value) -> String {
+	v.to_string()
+}
+
+/// source text of the call described by `op`
+fn source(op: &Value) -> String {
+	let fname = op["fn"].as_str().expect("fn");
+	let a: Vec<String> = op["a"].as_array().expect("a").iter().map(j).collect();
+	let f = op.get("f").and_then(Value::as_str).map(fn_text);
+	let g = op.get("g").and_then(Value::as_str).map(fn_text);
+	let args: Vec<String> = match fname {
+		// (arr [, keyF])
+		"sort" | "uniq" | "set" => {
+			let mut v = a.clone();
+			if let Some(f) = f {
+				v.push(f.to_string());
+			}
+			v
+		}
+		// (x, arr [, keyF]) / (a, b [, keyF])
+		"setMember" | "setUnion" | "setInter" | "setDiff" => {
+			let mut v = a.clone();
+			if let Some(f) = f {
+				v.push(f.to_string());
+			}
+			v
+		}
+		"minArray" | "maxArray" => {
+			let mut v = vec![a[0].clone()];
+			if let Some(f) = f {
+				v.push(format!("keyF={f}"));
+			}
+			if a.len() > 1 {
+				v.push(format!("onEmpty={}", a[1]));
+			}
+			v
+		}
+		"avg" => {
+			let mut v = vec![a[0].clone()];
+			if a.len() > 1 {
+				v.push(format!("onEmpty={}", a[1]));
+			}
+			v
+		}
+		// (func, arr, init)
+		"foldl" | "foldr" => vec![f.expect("f").to_string(), a[0].clone(), a[1].clone()],
+		"map" | "mapWithIndex" | "filter" | "flatMap" => vec![f.expect("f").to_string(), a[0].clone()],
+		"filterMap" => vec![f.expect("f").to_string(), g.expect("g").to_string(), a[0].clone()],
+		"makeArray" => vec![a[0].clone(), f.expect("f").to_string()],
+		_ => a.clone(),
+	};
+	format!("std.{fname}({})", args.join(", "))
+}
+
+fn run_case(s: &State, op: &Value) -> Value {
+	let code = source(op);
+	match guarded(|| -> Result<Value, String> {
+		let v = s
+			.evaluate_snippet("<c10>".to_owned(), code.clone())
+			.map_err(|e| format!("{}", e.error()))?;
+		val_json(&v)
+	}) {
+		Ok(Ok(v)) => json!({ "ok": v }),
+		Ok(Err(msg)) => json!({ "err": 1, "_msg": msg, "_src": code }),
+		Err(p) => json!({ "panic": p, "_src": code }),
+	}
+}
+
+// ---------------------------------------------------------------------------------------------
+// generators
+
+/// all arrays over `pool` of length 0..=n
+fn all_arrays(pool: &[Value], n: usize) -> Vec<Value> {
+	let mut out: Vec<Vec<Value>> = vec![vec![]];
+	let mut layer: Vec<Vec<Value>> = vec![vec![]];
+	for _ in 0..n {
+		let mut next = Vec::new();
+		for base in &layer {
+			for e in pool {
+				let mut b = base.clone();
+				b.push(e.clone());
+				next.push(b);
+			}
+		}
+		out.extend(next.iter().cloned());
+		layer = next;
+	}
+	out.into_iter().map(Value::Array).collect()
+}
+
+/// all sub-sequences of `sorted` (these are sets under the identity key when `sorted` is)
+fn subsets(sorted: &[Value]) -> Vec<Value> {
+	let n = sorted.len();
+	(0..(1usize << n))
+		.map(|mask| {
+			Value::Array(
+				(0..n)
+					.filter(|i| mask & (1 << i) != 0)
+					.map(|i| sorted[i].clone())
+					.collect(),
+			)
+		})
+		.collect()
+}
+
+fn reversed(v: &Value) -> Value {
+	let mut a = v.as_array().expect("arr").clone();
+	a.reverse();
+	Value::Array(a)
+}
+
+fn alphabet() -> Vec<Value> {
+	vec![
+		json!(0),
+		json!(1),
+		json!(1),
+		json!(2),
+		json!(-1),
+		json!("a"),
+		json!("b"),
+		json!("a"),
+		json!(""),
+		json!([]),
+		json!([1]),
+		json!([0, 1]),
+		json!([1]),
+		json!(null),
+		json!(true),
+		json!(false),
+		json!({}),
+		json!({"a": 1}),
+		json!({"a": "x"}),
+		json!({"a": 0}),
+		json!([[1]]),
+		json!(["a"]),
+		json!([null]),
+	]
+}
+
+fn rand_array(rng: &mut Rng, max_len: usize) -> Value {
+	let alpha = alphabet();
+	let n = rng.below(max_len + 1);
+	// bias: mostly one family so that successful (comparable) cases are frequent
+	let fam: Vec<Value> = match rng.below(6) {
+		0 => vec![json!(0), json!(1), json!(2), json!(-1), json!(1)],
+		1 => vec![json!("a"), json!("b"), json!(""), json!("ab"), json!("a")],
+		2 => vec![json!([]), json!([1]), json!([0, 1]), json!([0]), json!([1])],
+		3 => vec![json!({"a": 1}), json!({"a": 0}), json!({"a": 1}), json!({"a": 2})],
+		_ => alpha.clone(),
+	};
+	let stray = rng.chance(1, 4);
+	Value::Array(
+		(0..n)
+			.map(|_| {
+				if stray && rng.chance(1, 4) {
+					rng.pick(&alpha).clone()
+				} else {
+					rng.pick(&fam).clone()
+				}
+			})
+			.collect(),
+	)
+}
+
+struct Gen<'a> {
+	s: &'a State,
+	w: CaseWriter,
+	hist: BTreeMap<String, usize>,
+	outcome: BTreeMap<&'static str, usize>,
+	len_hist: BTreeMap<usize, usize>,
+}
+impl Gen<'_> {
+	fn emit(&mut self, fname: &str, a: Vec<Value>, f: Option<&str>, g: Option<&str>) {
+		let size: usize = 1 + a
+			.iter()
+			.map(|v| v.as_array().map_or(1, |x| x.len() + 1))
+			.sum::<usize>();
+		if let Some(first) = a.iter().find_map(Value::as_array) {
+			*self.len_hist.entry(first.len()).or_default() += 1;
+		}
+		let mut op = json!({"op":"std.call","fn":fname,"a":a,"size":size});
+		if let Some(f) = f {
+			op["f"] = json!(f);
+		}
+		if let Some(g) = g {
+			op["g"] = json!(g);
+		}
+		let ans = run_case(self.s, &op);
+		*self.hist.entry(fname.to_string()).or_default() += 1;
+		*self
+			.outcome
+			.entry(if ans.get("ok").is_some() {
+				"ok"
+			} else if ans.get("err").is_some() {
+				"err"
+			} else {
+				"panic"
+			})
+			.or_default() += 1;
+		self.w.case(op, ans);
+	}
+}
+
+const KEYFS: [Option<&str>; 11] = [
+	None,
+	Some("id"),
+	Some("idw"),
+	Some("neg"),
+	Some("const0"),
+	Some("mod2"),
+	Some("len"),
+	Some("fieldA"),
+	Some("failOnStr"),
+	Some("type"),
+	Some("wrap"),
+];
 
 pub fn run(opts: &Opts) {
-	let w = CaseWriter::new(&opts.out);
-	w.finish(serde_json::json!({"engine":"c10","cases":0,"rule":"stub"}), &opts.out);
+	let s = new_state();
+	let _g = s.enter();
+	if let Some(path) = &opts.replay {
+		let text = std::fs::read_to_string(path).expect("replay file");
+		let v: Value = serde_json::from_str(&text).expect("replay json");
+		let op = v.get("op").cloned().unwrap_or(v);
+		let mut w = CaseWriter::new(&opts.out);
+		let ans = run_case(&s, &op);
+		println!("source: {}", source(&op));
+		println!("implementation: {ans}");
+		w.case(op, ans);
+		w.finish(json!({"engine":"c10","cases":1,"rule":"replay"}), &opts.out);
+		return;
+	}
+	let thorough = opts.thorough();
+	let mut rng = Rng::new(opts.seed);
+	let mut g = Gen {
+		s: &s,
+		w: CaseWriter::new(&opts.out),
+		hist: BTreeMap::new(),
+		outcome: BTreeMap::new(),
+		len_hist: BTreeMap::new(),
+	};
+
+	let nums = [json!(0), json!(1), json!(2), json!(-1)];
+	let strs = [json!("a"), json!("b"), json!("")];
+	let numarrs = [json!([]), json!([1]), json!([0, 1]), json!([0])];
+	let objs = [json!({"a": 1}), json!({"a": 0}), json!({"a": "x"}), json!({})];
+	let bools = [json!(true), json!(false), json!(1)];
+	let non_arrays = [json!(null), json!(3), json!("ab"), json!({"a": 1}), json!(true)];
+
+	let n_num = if thorough { 6 } else { 4 };
+	let f_num = all_arrays(&nums, n_num);
+	let f_num5 = all_arrays(&nums, if thorough { 7 } else { 5 });
+	let f_str = all_arrays(&strs, if thorough { 4 } else { 3 });
+	let f_numarr = all_arrays(&numarrs, 3);
+	let f_obj = all_arrays(&objs, 3);
+	let n_rand = if thorough { 3000 } else { 400 };
+	let max_len = if thorough { 8 } else { 6 };
+	let f_rand: Vec<Value> = (0..n_rand).map(|_| rand_array(&mut rng, max_len)).collect();
+
+	// ---- sort / uniq / set -------------------------------------------------------------
+	for fname in ["sort", "uniq", "set"] {
+		for kf in KEYFS {
+			for fam in [&f_num, &f_str, &f_numarr, &f_obj, &f_rand] {
+				for arr in fam.iter() {
+					g.emit(fname, vec![arr.clone()], kf, None);
+				}
+			}
+		}
+		for kf in [None, Some("neg"), Some("mod2"), Some("const0")] {
+			for arr in f_num5.iter().filter(|a| a.as_array().unwrap().len() > n_num) {
+				g.emit(fname, vec![arr.clone()], kf, None);
+			}
+		}
+		for na in &non_arrays {
+			g.emit(fname, vec![na.clone()], None, None);
+			g.emit(fname, vec![na.clone()], Some("neg"), None);
+		}
+	}
+
+	// long arrays (beyond the std sorts' insertion-sort cut-off of 20): numbers only, so every key
+	// function of the pool that accepts numbers yields a total order and the stable result is unique
+	for i in 0..(if thorough { 400 } else { 80 }) {
+		let n = 21 + rng.below(if thorough { 60 } else { 30 });
+		let arr: Vec<Value> = (0..n).map(|_| json!(rng.range(-3, 6))).collect();
+		let kf = [None, Some("idw"), Some("neg"), Some("mod2"), Some("const0"), Some("wrap")][i % 6];
+		for fname in ["sort", "set", "uniq", "minArray", "maxArray"] {
+			g.emit(fname, vec![Value::Array(arr.clone())], kf, None);
+		}
+	}
+
+	// ---- set operations ----------------------------------------------------------------
+	let num_sets = subsets(&[json!(-1), json!(0), json!(1), json!(2), json!(3)]);
+	let str_sets = subsets(&[json!(""), json!("a"), json!("ab"), json!("b")]);
+	let arr_sets = subsets(&[json!([]), json!([0]), json!([0, 1]), json!([1])]);
+	let obj_sets = subsets(&[json!({"a": 0}), json!({"a": 1}), json!({"a": 2})]);
+	let small = all_arrays(&nums, 2);
+	let num_sets_rev: Vec<Value> = num_sets.iter().map(reversed).collect();
+	let len_sets = subsets(&[json!(""), json!("b"), json!("ab"), json!([0, 1, 2])]);
+	for fname in ["setUnion", "setInter", "setDiff"] {
+		let mut families: Vec<(&Vec<Value>, Vec<Option<&str>>)> = vec![
+			(&num_sets, vec![None, Some("id"), Some("idw"), Some("wrap"), Some("failOnStr")]),
+			(&num_sets_rev, vec![Some("neg")]),
+			(&str_sets, vec![None, Some("idw"), Some("failOnStr")]),
+			(&arr_sets, vec![None, Some("idw")]),
+			(&len_sets, vec![Some("len")]),
+			(&obj_sets, vec![Some("fieldA"), None]),
+			(&small, vec![Some("mod2"), Some("const0"), Some("type"), Some("neg"), None]),
+		];
+		for (fam, kfs) in families.drain(..) {
+			for kf in kfs {
+				for a in fam.iter() {
+					for b in fam.iter() {
+						g.emit(fname, vec![a.clone(), b.clone()], kf, None);
+					}
+				}
+			}
+		}
+		for _ in 0..(if thorough { 6000 } else { 1200 }) {
+			let a = rng.pick(&f_rand).clone();
+			let b = if rng.chance(1, 3) {
+				rng.pick(&num_sets).clone()
+			} else {
+				rng.pick(&f_rand).clone()
+			};
+			let kf = *rng.pick(&KEYFS);
+			g.emit(fname, vec![a, b], kf, None);
+		}
+		for na in &non_arrays {
+			g.emit(fname, vec![na.clone(), json!([1])], None, None);
+			g.emit(fname, vec![json!([1]), na.clone()], None, None);
+		}
+	}
+	// setMember
+	{
+		let xs: Vec<Value> = vec![
+			json!(-2), json!(-1), json!(0), json!(1), json!(2), json!(3), json!(4), json!("a"),
+			json!(""), json!("ab"), json!("c"), json!([]), json!([0]), json!([0, 0]), json!([2]),
+			json!(null), json!({"a": 1}), json!({"a": 5}), json!({"a": -1}),
+		];
+		let fams: Vec<(&Vec<Value>, Vec<Option<&str>>)> = vec![
+			(&num_sets, vec![None, Some("id"), Some("idw"), Some("wrap"), Some("failOnStr")]),
+			(&num_sets_rev, vec![Some("neg")]),
+			(&str_sets, vec![None, Some("idw"), Some("len")]),
+			(&arr_sets, vec![None, Some("len")]),
+			(&len_sets, vec![Some("len")]),
+			(&obj_sets, vec![Some("fieldA")]),
+			(&small, vec![Some("mod2"), Some("const0"), Some("type")]),
+		];
+		for (fam, kfs) in fams {
+			for kf in kfs {
+				for arr in fam.iter() {
+					for x in &xs {
+						g.emit("setMember", vec![x.clone(), arr.clone()], kf, None);
+					}
+				}
+			}
+		}
+		// longer sets: every position found / every gap missed
+		for n in 0..=(if thorough { 40 } else { 17 }) {
+			let arr: Vec<Value> = (0..n).map(|i| json!(2 * i)).collect();
+			for x in -1..=(2 * n + 1) {
+				g.emit("setMember", vec![json!(x), Value::Array(arr.clone())], None, None);
+				g.emit("setMember", vec![json!(-x), reversed(&Value::Array(arr.clone()))], Some("neg"), None);
+			}
+		}
+		for na in &non_arrays {
+			g.emit("setMember", vec![json!(1), na.clone()], None, None);
+		}
+	}
+
+	// ---- member / contains / find / count / remove ---------------------------------------
+	let probes: Vec<Value> = vec![
+		json!(0), json!(1), json!(-1), json!(3), json!("a"), json!(""), json!(null), json!([1]),
+		json!([]), json!({"a": 1}), json!({}), json!(true),
+	];
+	let f_num3 = all_arrays(&nums, 3);
+	for arr in f_num3.iter().chain(f_rand.iter()) {
+		for x in &probes {
+			g.emit("member", vec![arr.clone(), x.clone()], None, None);
+			g.emit("contains", vec![arr.clone(), x.clone()], None, None);
+			g.emit("find", vec![x.clone(), arr.clone()], None, None);
+			g.emit("count", vec![arr.clone(), x.clone()], None, None);
+			g.emit("remove", vec![arr.clone(), x.clone()], None, None);
+		}
+	}
+	for s_ in ["", "a", "ab", "aba", "abab", "bbb"] {
+		for p in ["", "a", "b", "ab", "ba", "abab", "ababa", "c"] {
+			g.emit("member", vec![json!(s_), json!(p)], None, None);
+			g.emit("contains", vec![json!(s_), json!(p)], None, None);
+		}
+		for p in [json!(1), json!(null), json!(["a"])] {
+			g.emit("member", vec![json!(s_), p.clone()], None, None);
+		}
+	}
+	for na in &non_arrays {
+		g.emit("member", vec![na.clone(), json!(1)], None, None);
+		g.emit("find", vec![json!(1), na.clone()], None, None);
+		g.emit("count", vec![na.clone(), json!(1)], None, None);
+		g.emit("remove", vec![na.clone(), json!(1)], None, None);
+		g.emit("removeAt", vec![na.clone(), json!(0)], None, None);
+	}
+
+	// ---- removeAt: every index -3..len+3 plus the i32 extremes -----------------------------
+	{
+		let mut arrs: Vec<Value> = (0..=8usize)
+			.map(|n| Value::Array((0..n).map(|i| json!(10 + i)).collect()))
+			.collect();
+		arrs.extend(all_arrays(&[json!(1), json!("a"), json!([1])], 3));
+		arrs.extend(f_rand.iter().take(150).cloned());
+		for arr in &arrs {
+			let len = arr.as_array().unwrap().len() as i64;
+			for i in -3..=len + 3 {
+				g.emit("removeAt", vec![arr.clone(), json!(i)], None, None);
+			}
+			for i in [-(len + 1), -len, 2147483647i64, 2147483646, -2147483648, -2147483647] {
+				g.emit("removeAt", vec![arr.clone(), json!(i)], None, None);
+			}
+		}
+		g.emit("removeAt", vec![json!([1, 2]), json!("a")], None, None);
+		g.emit("removeAt", vec![json!([1, 2]), json!(null)], None, None);
+	}
+
+	// ---- flatten -----------------------------------------------------------------------------
+	{
+		let pieces = [json!([]), json!([1]), json!([2, 3]), json!([[4]]), json!(["a", null])];
+		for arrs in all_arrays(&pieces, if thorough { 5 } else { 4 }) {
+			g.emit("flattenArrays", vec![arrs.clone()], None, None);
+			g.emit("flattenDeepArray", vec![arrs], None, None);
+		}
+		// longer inputs exercise the balanced split
+		for n in 5..=(if thorough { 40 } else { 20 }) {
+			let arrs: Vec<Value> = (0..n)
+				.map(|i| Value::Array((0..(i % 3)).map(|k| json!(10 * i + k)).collect()))
+				.collect();
+			g.emit("flattenArrays", vec![Value::Array(arrs)], None, None);
+		}
+		for arr in f_rand.iter() {
+			g.emit("flattenArrays", vec![arr.clone()], None, None);
+			g.emit("flattenDeepArray", vec![arr.clone()], None, None);
+		}
+		for v in [json!(1), json!("a"), json!(null), json!([[[1, [2]], 3], [[]], 4]), json!({"a": 1})] {
+			g.emit("flattenDeepArray", vec![v.clone()], None, None);
+			g.emit("flattenArrays", vec![v], None, None);
+		}
+	}
+
+	// ---- folds / maps / filters ----------------------------------------------------------------
+	let general: Vec<Value> = f_num3
+		.iter()
+		.chain(all_arrays(&strs, 2).iter())
+		.chain(f_rand.iter())
+		.cloned()
+		.collect();
+	let str_args = [json!(""), json!("a"), json!("ab"), json!("aba"), json!("baab")];
+	let inits = [json!([]), json!(0), json!("s"), json!(null)];
+	for arr in general.iter().chain(str_args.iter()).chain(non_arrays.iter()) {
+		for init in &inits {
+			for f in ["pair", "snoc", "add", "fst"] {
+				g.emit("foldl", vec![arr.clone(), init.clone()], Some(f), None);
+			}
+			for f in ["pair", "cons", "add", "fst"] {
+				g.emit("foldr", vec![arr.clone(), init.clone()], Some(f), None);
+			}
+		}
+		for f in ["id", "neg", "wrap", "type", "inc", "len", "failOnStr", "cc"] {
+			g.emit("map", vec![arr.clone()], Some(f), None);
+		}
+		for f in ["pair", "fst", "add"] {
+			g.emit("mapWithIndex", vec![arr.clone()], Some(f), None);
+		}
+		for f in ["isNum", "pos", "eq1", "true", "id", "len", "failOnStr"] {
+			g.emit("filter", vec![arr.clone()], Some(f), None);
+		}
+		for (f, m) in [("isNum", "neg"), ("isNum", "inc"), ("true", "neg"), ("pos", "wrap"), ("eq1", "type"), ("id", "id")] {
+			g.emit("filterMap", vec![arr.clone()], Some(f), Some(m));
+		}
+		for f in ["dup", "numOrNull", "id", "wrap", "cc", "skipA", "const0", "failOnStr"] {
+			g.emit("flatMap", vec![arr.clone()], Some(f), None);
+		}
+	}
+
+	// ---- join / lines / deepJoin ---------------------------------------------------------------
+	{
+		let sitems = [json!("a"), json!(""), json!(null), json!("bc")];
+		let aitems = [json!([1]), json!([]), json!(null), json!([2, 3])];
+		let n = if thorough { 5 } else { 4 };
+		for arr in all_arrays(&sitems, n) {
+			for sep in [json!(""), json!(","), json!("--")] {
+				g.emit("join", vec![sep, arr.clone()], None, None);
+			}
+			g.emit("lines", vec![arr.clone()], None, None);
+			g.emit("deepJoin", vec![arr.clone()], None, None);
+		}
+		for arr in all_arrays(&aitems, n) {
+			for sep in [json!([]), json!([0]), json!([8, 9])] {
+				g.emit("join", vec![sep, arr.clone()], None, None);
+			}
+		}
+		for arr in f_rand.iter() {
+			g.emit("join", vec![json!(","), arr.clone()], None, None);
+			g.emit("join", vec![json!([0]), arr.clone()], None, None);
+			g.emit("lines", vec![arr.clone()], None, None);
+			g.emit("deepJoin", vec![arr.clone()], None, None);
+		}
+		for v in [json!("abc"), json!(["a", ["b", ["c", ""]], []]), json!(["a", [1]]), json!(1), json!(null)] {
+			g.emit("deepJoin", vec![v], None, None);
+		}
+		for sep in [json!(1), json!(null), json!({})] {
+			g.emit("join", vec![sep, json!(["a", "b"])], None, None);
+		}
+		for na in &non_arrays {
+			g.emit("join", vec![json!(","), na.clone()], None, None);
+			g.emit("lines", vec![na.clone()], None, None);
+		}
+	}
+
+	// ---- any / all / sum / avg / minArray / maxArray ----------------------------------------------
+	for arr in all_arrays(&bools, if thorough { 5 } else { 4 }).iter().chain(f_rand.iter()).chain(non_arrays.iter()) {
+		g.emit("any", vec![arr.clone()], None, None);
+		g.emit("all", vec![arr.clone()], None, None);
+	}
+	for arr in f_num.iter().chain(f_rand.iter()).chain(non_arrays.iter()) {
+		g.emit("sum", vec![arr.clone()], None, None);
+		g.emit("avg", vec![arr.clone()], None, None);
+	}
+	g.emit("avg", vec![json!([]), json!("dflt")], None, None);
+	g.emit("avg", vec![json!([1, 2]), json!("dflt")], None, None);
+	for fname in ["minArray", "maxArray"] {
+		for kf in KEYFS {
+			for fam in [&f_num, &f_str, &f_numarr, &f_obj, &f_rand] {
+				for arr in fam.iter() {
+					g.emit(fname, vec![arr.clone()], kf, None);
+				}
+			}
+		}
+		g.emit(fname, vec![json!([]), json!("dflt")], None, None);
+		g.emit(fname, vec![json!([]), json!("dflt")], Some("neg"), None);
+		g.emit(fname, vec![json!([2, 1, 3]), json!("dflt")], Some("neg"), None);
+		for na in &non_arrays {
+			g.emit(fname, vec![na.clone()], None, None);
+		}
+	}
+
+	// ---- range / repeat / slice / makeArray ----------------------------------------------------------
+	for a in -3..=4i64 {
+		for b in -4..=6i64 {
+			g.emit("range", vec![json!(a), json!(b)], None, None);
+		}
+	}
+	g.emit("range", vec![json!("a"), json!(1)], None, None);
+	g.emit("range", vec![json!(0), json!(null)], None, None);
+	for what in [json!([]), json!([1]), json!([1, "a"]), json!(""), json!("a"), json!("ab"), json!(1), json!(null)] {
+		for c in -1..=4i64 {
+			g.emit("repeat", vec![what.clone(), json!(c)], None, None);
+		}
+	}
+	{
+		let mut targets: Vec<Value> = (0..=6usize)
+			.map(|n| Value::Array((0..n).map(|i| json!(10 + i)).collect()))
+			.collect();
+		targets.extend([json!(""), json!("a"), json!("abcde")]);
+		for t in &targets {
+			let len = t.as_array().map_or_else(|| t.as_str().unwrap().len(), Vec::len) as i64;
+			let mut idx: Vec<Value> = vec![Value::Null];
+			idx.extend((-3..=len + 3).map(|i| json!(i)));
+			let steps = [Value::Null, json!(1), json!(2), json!(3)];
+			for i in &idx {
+				for e in &idx {
+					for st in &steps {
+						if len > 4 && st != &Value::Null && st != &json!(2) {
+							continue;
+						}
+						g.emit("slice", vec![t.clone(), i.clone(), e.clone(), st.clone()], None, None);
+					}
+				}
+			}
+			for st in [json!(0), json!(-1)] {
+				g.emit("slice", vec![t.clone(), json!(0), json!(2), st], None, None);
+			}
+		}
+		for na in [json!(null), json!(1), json!({})] {
+			g.emit("slice", vec![na, json!(0), json!(1), json!(1)], None, None);
+		}
+	}
+	for n in -2..=6i64 {
+		for f in ["twice", "wrap", "lit", "const0", "id", "len", "neg"] {
+			g.emit("makeArray", vec![json!(n)], Some(f), None);
+		}
+	}
+	g.emit("makeArray", vec![json!("a")], Some("id"), None);
+
+	let meta = json!({
+		"engine": "c10",
+		"cases": g.w.n,
+		"per_function": g.hist,
+		"outcomes": g.outcome,
+		"first_array_arg_length_hist": g.len_hist,
+		"rule": "std.<fn>(args) evaluated from source by the real evaluator for 40 functions: exhaustive arrays over {0,1,2,-1} (len<=4 quick, all key functions; len 5 for 4 keys), over {'a','b',''} (len<=3), over number arrays, over objects, plus seeded mixed-type arrays with duplicates/nesting (len<=6 quick/8 thorough); set operations on all pairs of subsets of 5 numbers / 4 strings / 4 arrays / 3 objects under matching key functions plus arbitrary (non-set) pairs; removeAt at every index -3..len+3 and the i32 extremes; slice over all index pairs -3..len+3 x steps; key/predicate/fold functions from a named pool of 26 (identity, total, partial, type-changing, non-injective)"
+	});
+	let Gen { w, .. } = g;
+	w.finish(meta, &opts.out);
 }
